@@ -122,6 +122,35 @@ Definition find_files (d : dict) : option (list file) :=
   | None => None
   end.
 
+(* ---- PathBuf::join (Unix) --------------------------------------------------- *)
+Definition slash : N := 47.
+Definition is_abs (p : bytes) : bool := match p with c :: _ => c =? slash | [] => false end.
+Definition ends_with_slash (p : bytes) : bool :=
+  match rev p with c :: _ => c =? slash | [] => false end.
+(* dir.join(p): an absolute p replaces dir; a separator is added unless dir is empty or ends with one *)
+Definition join (dir p : bytes) : bytes :=
+  if is_abs p then p
+  else match dir with
+       | [] => p
+       | _ => if ends_with_slash dir then dir ++ p else dir ++ [slash] ++ p
+       end.
+
+(* components: split at '/', as Path::components sees them (empty and "." are skipped by std,
+   ".." is ParentDir, a leading '/' is RootDir) *)
+Fixpoint split_go (cur : bytes) (p : bytes) : list bytes :=
+  match p with
+  | [] => [rev cur]
+  | c :: r => if c =? slash then rev cur :: split_go [] r else split_go (c :: cur) r
+  end.
+Definition split_path (p : bytes) : list bytes := split_go [] p.
+Definition dotdot : bytes := [46; 46].
+Definition dot : bytes := [46].
+
+(* the check added by the repair of src/metainfo.rs: only Normal / CurDir components *)
+Definition safe_path (p : bytes) : bool :=
+  negb (is_abs p) && negb (existsb (bytes_eqb dotdot) (split_path p)).
+
+
 (* sum of the file lengths; the repaired parse refuses totals that do not fit *)
 Definition sum_lengths (fs : list file) : N := fold_left (fun acc f => acc + f_length f) fs 0.
 
@@ -141,6 +170,7 @@ Definition parse_meta (data : bytes) (d : dict) : option metainfo :=
                    | None => match multi with Some fs => fs | None => [] end
                    end in
       if Metainfo_reject_total_overflow && negb (sum_lengths files <? 18446744073709551616) then None else
+      if Metainfo_reject_unsafe_paths && negb (safe_path name && forallb (fun f => safe_path (f_path f)) files) then None else
       match find_announce d, find_piece_length d, find_pieces d, find_first key_info_raw data with
       | Some a, Some pl, Some ps, Some h => Some (mkmeta a name pl ps files h)
       | _, _, _, _ => None
